@@ -7,9 +7,9 @@ import (
 
 // files derives the file set from the description: page.vuego and one file per component.
 func files(c Case) map[string]string {
-	out := map[string]string{"page.vuego": emit(c.Page, c.Compact)}
+	out := map[string]string{"page.vuego": emit(c.Page, c.Compact, c.Short)}
 	if len(c.Layout) > 0 {
-		out["layouts/base.vuego"] = emit(c.Layout, c.Compact)
+		out["layouts/base.vuego"] = emit(c.Layout, c.Compact, c.Short)
 	}
 	for name, cp := range c.Comps {
 		var b strings.Builder
@@ -21,22 +21,22 @@ func files(c Case) map[string]string {
 			b.WriteString("---\n")
 		}
 		if cp.Wrap {
-			b.WriteString("<template>" + emit(cp.Nodes, c.Compact))
+			b.WriteString("<template>" + emit(cp.Nodes, c.Compact, c.Short))
 			if !c.Compact {
 				b.WriteString("\n")
 			}
 			b.WriteString("</template>\n")
 		} else {
-			b.WriteString(emit(cp.Nodes, c.Compact))
+			b.WriteString(emit(cp.Nodes, c.Compact, c.Short))
 		}
 		out[name] = b.String()
 	}
 	return out
 }
 
-func emit(nodes []Node, compact bool) string {
+func emit(nodes []Node, compact, short bool) string {
 	var b strings.Builder
-	w := &writer{b: &b, compact: compact}
+	w := &writer{b: &b, compact: compact, short: short}
 	w.nodes(nodes, 0)
 	return b.String()
 }
@@ -44,6 +44,23 @@ func emit(nodes []Node, compact bool) string {
 type writer struct {
 	b       *strings.Builder
 	compact bool
+	short   bool
+}
+
+// shortTag is the documented mapping: components/KOne.vuego -> <k-one>.
+func shortTag(file string) string {
+	name := strings.TrimSuffix(file[strings.LastIndex(file, "/")+1:], ".vuego")
+	var b strings.Builder
+	for i, r := range name {
+		if r >= 'A' && r <= 'Z' {
+			if i > 0 {
+				b.WriteByte('-')
+			}
+			r += 'a' - 'A'
+		}
+		b.WriteRune(r)
+	}
+	return b.String()
 }
 
 func (w *writer) nl(depth int) {
@@ -115,7 +132,13 @@ func (w *writer) node(n Node, depth int) {
 		w.b.WriteString("</slot>")
 	case "inc":
 		w.nl(depth)
-		fmt.Fprintf(w.b, `<template include="%s"`, n.Comp)
+		closeTag := "</template>"
+		if w.short {
+			fmt.Fprintf(w.b, `<%s`, shortTag(n.Comp))
+			closeTag = "</" + shortTag(n.Comp) + ">"
+		} else {
+			fmt.Fprintf(w.b, `<template include="%s"`, n.Comp)
+		}
 		for _, kv := range n.Stat {
 			fmt.Fprintf(w.b, ` %s="%s"`, kv.K, kv.V)
 		}
@@ -136,7 +159,7 @@ func (w *writer) node(n Node, depth int) {
 		if len(n.Sup)+len(n.Kids) > 0 {
 			w.nl(depth)
 		}
-		w.b.WriteString("</template>")
+		w.b.WriteString(closeTag)
 	default:
 		panic("c06: unknown node kind " + n.K)
 	}
